@@ -146,15 +146,23 @@ pub fn c14(ctx: &Ctx, begin: &mut dyn FnMut(J)) -> Outcome {
         const N: u32 = 12_000;
         match inp {
             Input::Bw(mut i) => {
-                i.truncate(1);
-                i[0].0.size = i[0].0.size.max(N * 4 + 100);
-                i[0].1 = (0..N).map(|k| Value { start: k * 4, end: k * 4 + 3, value: [1.0f32, 2.0, 0.5, 4.0][(k % 4) as usize] }).collect();
+                // one chromosome with everything, or two with half each (the second one's sections are then staged
+                // while the first still owns the destination and reach it through the mid-stream hand-off copy)
+                i.truncate(if ctx.case % 32 < 16 { 1 } else { 2 });
+                let per = N / i.len() as u32;
+                for c in i.iter_mut() {
+                    c.0.size = c.0.size.max(per * 4 + 100);
+                    c.1 = (0..per).map(|k| Value { start: k * 4, end: k * 4 + 3, value: [1.0f32, 2.0, 0.5, 4.0][(k % 4) as usize] }).collect();
+                }
                 (Input::Bw(i), format!("{}:bulk", hash))
             }
             Input::Bb(mut i) => {
-                i.truncate(1);
-                i[0].0.size = i[0].0.size.max(N * 4 + 100);
-                i[0].1 = (0..N).map(|k| BedEntry { start: k * 4, end: k * 4 + 6, rest: "x".to_string() }).collect();
+                i.truncate(if ctx.case % 32 < 16 { 1 } else { 2 });
+                let per = N / i.len() as u32;
+                for c in i.iter_mut() {
+                    c.0.size = c.0.size.max(per * 4 + 100);
+                    c.1 = (0..per).map(|k| BedEntry { start: k * 4, end: k * 4 + 6, rest: "x".to_string() }).collect();
+                }
                 (Input::Bb(i), format!("{}:bulk", hash))
             }
         }
@@ -166,7 +174,12 @@ pub fn c14(ctx: &Ctx, begin: &mut dyn FnMut(J)) -> Outcome {
         opts.items_per_slot = *r.pick(&[64u32, 256, 1024]);
         opts.block_size = opts.block_size.max(4);
         opts.multipass = r.chance(2, 3);
-        opts.workers = 0; // one schedule is enough here; the small cases cover the multi-thread one
+        if ctx.case % 32 < 16 {
+            opts.workers = 0; // one schedule is enough for the one-chromosome shape
+        } else {
+            opts.workers = opts.workers.max(2);
+            opts.inmemory = false; // staged sections of the second chromosome go through a temporary file
+        }
         out.tag("bulk_input");
     }
     begin(
